@@ -1,6 +1,6 @@
 PROPS["C02"] = prop(
     "exploration",
-    "rapid-generated permission/attachment histories on the real server; oracle = harness attachment model (from acks only) x stored permissions => exact recipient set, copy fields, order, push recipients; session 3: store latency, attach at the moment of the idle timer, lazy connections",
+    "rapid-generated permission/attachment histories on the real server; oracle = harness attachment model (from acks only) x stored permissions => exact recipient set, copy fields, order, push recipients; session 3: store latency, attach at the moment of the idle timer, lazy connections; after seeded round 6: a member removal which fails in the store (the member keeps receiving)",
     "program = 3-6 sessions of 4 users (owner/root, members, channel readers, stranger) + 3-14 ops from {pub (noecho, forged sender, on-behalf-of), sub with want, leave/unsub, set want/given, evict, reload, reconnect, suspend}; "
     "non-trivial = an accepted publish whose topic had both an eligible and an ineligible attached session, or two eligible sessions of one user; distinct = FNV-64 of the program",
     "Every accepted publish is checked against the exact set of sessions that must and must not receive it, every copy field and the push receipt. Sampled.",
@@ -11,7 +11,7 @@ PROPS["C02"] = prop(
 )
 PROPS["C03"] = prop(
     "exploration",
-    "same generator as C02; oracle = predicted verdict (attached, W in want&given from store rows, topic kind/state) compared both ways with the reply code, plus no-effect diff of store/frames/push on refusal; session 3: no attached session is evicted while only time passes; a publish reaching a terminated topic is answered (lazy connections)",
+    "same generator as C02; oracle = predicted verdict (attached, W in want&given from store rows, topic kind/state) compared both ways with the reply code, plus no-effect diff of store/frames/push on refusal; session 3: no attached session is evicted while only time passes; a publish reaching a terminated topic is answered (lazy connections); after seeded round 6: a publish sent a generated number of virtual microseconds into a slow store's deletion of the topic - accepted with a server time after the one at which the acknowledged deletion began = accepted by a topic which was being deleted",
     "non-trivial = program with >=1 accepted and >=1 refused publish whose refusal reason is a permission or state; distinct = FNV-64 of the program",
     "Accepted iff the statement's conditions hold, both directions; refused publishes are diffed against the store, all sessions' frames and push receipts. Sampled.",
     "Trusts verifmem and the attachment model; 'being deleted' topics are not observable at quiescence and are not judged.",
